@@ -94,7 +94,7 @@ CHECKS = {
         technique="HyForms generates model trees (TLC: exhaustive over heads x atom sequences, random behaviours with nested "
                   "forms) and specifies the compile pipeline as a state machine; every tree is pushed through hy_compile, "
                   "compile() and marshal, the recorded events are validated by TLC against the state machine",
-        text="All core macro heads x every sequence of up to 2 atoms of 39 kinds, random argument sequences up to 5 with nested "
+        text="All core macro heads (plus plain call, method sugar, dotted call, keyword call) x every sequence of up to 2 atoms of 46 kinds, random argument sequences up to 5 with nested "
              "forms, and mutated forms from tests/native_tests; accepted end states: marshalled code object, or rejection by "
              "a HyLanguageError / SyntaxError while Hy or Python compiles.",
         note="HyMacroExpansionError is a HyLanguageError and is accepted as user-facing even when it wraps an internal "
